@@ -1,7 +1,8 @@
 SPECIFICATION Spec
 CONSTANTS
+  Dev = {"cache-ops"}
   MaxCalls = 3
-  AsImplemented = TRUE
-INVARIANTS Complete
+  MaxOps = 5
+INVARIANTS WriteLive
 VIEW View
 CHECK_DEADLOCK FALSE
